@@ -321,6 +321,8 @@ def _mirror(a0, a1, a2, a3, a4, a5, b0, b1, b2, b3, b4, b5, pos, up):
         mq.set_mirror(0, 3)
         ok = ok and mq.map(pos, assoc) == pos and mq.copy().map(pos, assoc) == pos
         ok = ok and mq.slice(1, 3).map(pos, assoc) == pos
+        # a slice that ends exactly where the mirror partner of its first map sits must not jump out of the slice
+        ok = ok and mq.slice(0, 3).map(pos, assoc) == ref_map(ra, False, pos, assoc)
         ok = ok and mq.get_mirror(0) == 3 and mq.get_mirror(3) == 0 and mq.get_mirror(2) == 1
     elif pat == "rebase":                  # rebasing: [m1^-1 ... , other, m1'] : invert() of a mapping is mirrored
         base = Mapping()
